@@ -338,7 +338,7 @@ pub fn run_c20(opts: &Opts, cfg_b: bool) -> (Stats, Vec<String>, String) {
         for edges in DagEnum::new(n) {
             let calls: Vec<(u32, u32, EK)> = edges.iter().map(|&(a, b)| (a as u32, b as u32, EK::Logic)).collect();
             for a in 0..2 {
-                let (reads, writes) = if a == 0 { (vec![0; n], vec![0; n]) } else { ((0..n).map(|i| (i % 2) as u8).collect(), (0..n).map(|i| ((i + 1) % 2) as u8).collect()) };
+                let (reads, writes) = if a == 0 { (vec![0; n], vec![0; n]) } else { ((0..n).map(|i| (i % 2) as crate::model::Mask).collect(), (0..n).map(|i| ((i + 1) % 2) as crate::model::Mask).collect()) };
                 graphs.push(GraphSpec { n, calls: calls.clone(), reads, writes });
             }
         }
@@ -451,8 +451,21 @@ pub fn run_c20(opts: &Opts, cfg_b: bool) -> (Stats, Vec<String>, String) {
     let tcases = ((if q { 150 } else { 5_000 }) as f64 * opts.scale) as u64;
     let thr = par_for(opts.jobs.min(4), tcases, 2, Some(deadline), |st: &mut Stats, i: u64, _slot: &Slot| {
         let mut rng = Rng::new(mix(seed ^ 0x7468, i));
-        let gs = crate::threads::small_conflicting_graph(&mut rng, 7);
-        let (found, n) = crate::threads::threads_directors(&gs, mix(seed, i), 3, 4, cfg_b);
+        let gs = if i % 3 == 2 {
+            // three fully connected layers of 40: setting a run up takes long enough for two
+            // threads to be inside their first use of the graph at the same time
+            let mut g = GraphSpec::new(120);
+            for a in 0..40u32 {
+                for b in 0..40u32 {
+                    g.calls.push((a, 40 + b, EK::Logic));
+                    g.calls.push((40 + a, 80 + b, EK::Logic));
+                }
+            }
+            g
+        } else {
+            crate::threads::small_conflicting_graph(&mut rng, 7)
+        };
+        let (found, n) = crate::threads::threads_directors(&gs, mix(seed, i), 3, if gs.n > 40 { 2 } else { 4 }, cfg_b);
         st.evaluations += n;
         st.add("threads.runs_on_shared_graph", n);
         st.count("threads.cases");
